@@ -214,6 +214,7 @@ func init() {
 			}
 			if unit == len(c04Init)*len(ops)+c04PauseUnits(c.Tier)+1 {
 				c04Ends(c)
+				c04Clocks(c)
 				return
 			}
 			if unit >= len(c04Init)*len(ops) {
@@ -237,6 +238,10 @@ func init() {
 			}
 			if cs.Spelling > 0 {
 				c04Spellings(c, cs.Spelling-1)
+				return
+			}
+			if cs.Init <= -100 {
+				c04Clocks(c)
 				return
 			}
 			x := &c04Explorer{c: c, init: cs.Init, visited: map[uint64]bool{}}
@@ -269,6 +274,7 @@ type c04Explorer struct {
 	dir, home string
 	visited   map[uint64]bool
 	n         int
+	env       *CmdEnv // nil = c04Env
 }
 
 func (x *c04Explorer) explore(state string, hist []Op, depth int) {
@@ -306,16 +312,20 @@ func (x *c04Explorer) step(before string, hist []Op, viaCLI bool) (string, bool)
 		c.Outcome("state-outside-model:" + refBefore.Verdict.String())
 		return before, false
 	}
-	m := o.Apply(refBefore.Records, c04Env)
+	env := c04Env
+	if x.env != nil {
+		env = *x.env
+	}
+	m := o.Apply(refBefore.Records, env)
 	var r clidrv.Result
 	if viaCLI {
-		r = RunOp(x.home, path, o, c04Env)
+		r = RunOp(x.home, path, o, env)
 	} else {
 		var okFlags bool
-		r, okFlags = ExecOp(x.home, path, o, c04Env)
+		r, okFlags = ExecOp(x.home, path, o, env)
 		if !okFlags {
 			// the flag values are invalid: only the complete CLI can tell how that is reported
-			r = RunOp(x.home, path, o, c04Env)
+			r = RunOp(x.home, path, o, env)
 		}
 	}
 	after := clidrv.ReadFile(path)
@@ -422,6 +432,9 @@ var c04EndsInit = []string{
 }
 
 func c04InitText(i int) string {
+	if i <= -100 {
+		return c04ClockInit[i]
+	}
 	if i < 0 {
 		return c04EndsInit[-1-i]
 	}
@@ -430,6 +443,55 @@ func c04InitText(i int) string {
 
 // c04Ends: every command with an explicit --date at (or next to) the first / last representable date, on files
 // whose records lie there; the clock stays at its ordinary reading. The model decides as everywhere else.
+// c04Clocks: the same model under other clock readings - the day after / the day of a daylight-saving transition
+// (clidrv expresses readings on these days in Europe/Berlin: "24 hours ago" is not "yesterday"), and a pause that
+// keeps running past midnight.
+func c04Clocks(c *fw.Ctx) {
+	type sc struct {
+		env  CmdEnv
+		init string
+		ops  []Op
+	}
+	rel := func() []Op {
+		var ops []Op
+		for _, r := range []string{"yesterday", "tomorrow", "today"} {
+			ops = append(ops, Op{Kind: "track", Rel: r, Entry: "1h dst"}, Op{Kind: "start", Rel: r}, Op{Kind: "create", Rel: r}, Op{Kind: "stop", Rel: r})
+		}
+		return ops
+	}
+	var scs []sc
+	for _, day := range []sm.Date{{Y: 2024, M: 4, D: 1}, {Y: 2024, M: 10, D: 27}} {
+		n := sm.DayNumber(day)
+		d := func(off int) string { return sm.DateLit{Date: sm.FromDayNumber(n + off)}.String() }
+		for _, mins := range []int{30, 12 * 60, 23*60 + 30} {
+			scs = append(scs,
+				sc{CmdEnv{Today: day, NowMins: mins}, d(-2) + "\n    1h\n\n" + d(-1) + "\n    0:10 - ?\n\n" + d(0) + "\n    2h\n\n" + d(1) + "\n    3h\n", rel()},
+				sc{CmdEnv{Today: day, NowMins: mins}, d(-3) + "\n    1h\n", rel()})
+		}
+	}
+	// a pause over midnight: the target record is the one found when the command started
+	for _, init := range []string{"2021-03-09\n    22:00 - ? late #n\n", "2021-03-10\n    22:00 - ?\n", "2021-03-09\n    1h\n\n2021-03-10\n    23:00 - ? x\n    -2m\n"} {
+		scs = append(scs, sc{CmdEnv{Today: sm.Date{Y: 2021, M: 3, D: 10}, NowMins: 23*60 + 58}, init,
+			[]Op{{Kind: "pause", Ticks: []int{61, 125, 190}}, {Kind: "pause", Extend: true, Ticks: []int{61, 125, 190}}, {Kind: "pause", HasSum: true, Summary: "nap", Ticks: []int{130, 3725}}}})
+	}
+	for k, s := range scs {
+		env := s.env
+		x := &c04Explorer{c: c, init: -100 - k, visited: map[uint64]bool{}, env: &env}
+		x.dir = filepath.Join(fw.Scratch(), "c04c")
+		os.MkdirAll(x.dir, 0755)
+		x.home = clidrv.Home("home")
+		c04ClockInit[-100-k] = s.init
+		for _, o := range s.ops {
+			x.step(s.init, []Op{o}, true)
+			if c.ViolationCount() > 3 {
+				return
+			}
+		}
+	}
+}
+
+var c04ClockInit = map[int]string{}
+
 func c04Ends(c *fw.Ctx) {
 	var ops []Op
 	for _, d := range []string{"0000-01-01", "0000-01-02", "9999-12-30", "9999-12-31"} {
